@@ -14,10 +14,19 @@ import (
 
 // hand-built descriptor shapes for the size / depth / cache classes of C02
 
+// a descriptor whose top-level type is not a struct
+func c02RootOnly(r *rng, root *Ty) *c02gen {
+	c := c02Manual(r)
+	c.root = root
+	return c
+}
+
 func c02Manual(r *rng, structs ...*Ty) *c02gen {
 	c := &c02gen{r: r, g: newTgen(r.fork()), alias: map[*Fld]string{}, annot: map[*Fld]string{}, vm: map[*Fld]bool{}, sdesc: map[*Ty]*thrift.StructDescriptor{}}
 	c.g.structs = structs
-	c.root = structs[0]
+	if len(structs) > 0 {
+		c.root = structs[0]
+	}
 	return c
 }
 
@@ -306,6 +315,58 @@ func genC02Special(r *rng, class int) int {
 			p := c.printVal(r, ob, v, 1+r.intn(2))
 			c.runDoc(r, desc, dfs, ob, p.sb, p.skeys, true)
 			n++
+		}
+	case 5: // top-level NON-STRUCT descriptors x {as is, leading blanks, trailing blanks, both, trailing bytes, truncated inside the value}
+		//         (+ for STRING / binary: the documented unquoted-text special case)
+		roots := []*Ty{sc(thrift.STRING), {K: thrift.STRING, Binary: true}, sc(thrift.STRING),
+			{K: thrift.LIST, Elem: sc(thrift.I32)}, {K: thrift.LIST, Elem: sc(thrift.STRING)}, {K: thrift.SET, Elem: sc(thrift.I64)},
+			{K: thrift.MAP, Key: sc(thrift.STRING), Elem: sc(thrift.I32)}, {K: thrift.MAP, Key: sc(thrift.I32), Elem: sc(thrift.STRING)},
+			{K: thrift.LIST, Elem: &Ty{K: thrift.STRING, Binary: true}},
+			sc(thrift.I32), sc(thrift.I64), sc(thrift.DOUBLE), sc(thrift.BOOL), sc(thrift.I08), sc(thrift.I16)}
+		root := roots[r.intn(len(roots))]
+		c := c02RootOnly(r.fork(), root)
+		desc, dfs := c.prepare()
+		blanks := func() []byte {
+			var b []byte
+			for k := 1 + r.intn(4); k > 0; k-- {
+				b = append(b, " \t\n\r"[r.intn(4)])
+			}
+			return b
+		}
+		cat := func(parts ...[]byte) []byte {
+			var b []byte
+			for _, x := range parts {
+				b = append(b, x...)
+			}
+			return b
+		}
+		for k := 0; k < 2; k++ {
+			ob := []int{0, 0, 2, 4}[r.intn(4)]
+			v := c.value(root, 0)
+			p := c.printVal(r, ob, v, r.intn(3))
+			doc := append([]byte(nil), p.sb...)
+			variants := [][]byte{doc, cat(blanks(), doc), cat(doc, blanks()), cat(blanks(), doc, blanks()),
+				cat(doc, []byte([]string{"x", ",", "]", "}", "\"", "\x00", " 1"}[r.intn(7)]))}
+			for j := 0; j < 4 && len(doc) > 0; j++ { // truncated inside the value (also with trailing blanks after the cut)
+				cut := r.intn(len(doc))
+				if j == 0 {
+					cut = len(doc) - 1
+				}
+				t := append([]byte(nil), doc[:cut]...)
+				if r.chance(30) {
+					t = cat(t, blanks())
+				}
+				variants = append(variants, t)
+			}
+			if root.K == thrift.STRING { // unquoted text for a STRING / binary descriptor: the whole text is the string
+				raws := [][]byte{[]byte("abc"), []byte("a\"b\\c"), []byte("null"), []byte("12"), []byte(" \"abc\""), []byte("aGVsbG8="), []byte("aGVsbG8"), []byte("a\nb\x01"),
+					[]byte("{\"a\":1}"), c.str(), r.bytes(1 + r.intn(20)), []byte("abc\""), []byte("x\"abc\"")}
+				variants = append(variants, raws[r.intn(len(raws))], raws[r.intn(len(raws))])
+			}
+			for _, d := range variants {
+				c.runDoc(r, desc, dfs, ob, d, nil, len(d) < 200 && r.chance(30))
+				n++
+			}
 		}
 	case 4: // hand-written deviations and malformed texts on a fixed shape (each line: option bits, text)
 		c := c02newFixed(r.fork())
